@@ -41,7 +41,11 @@ func controlConds(b, stop *ssa.BasicBlock) []controlCond {
 }
 
 func isLoopHeader(b *ssa.BasicBlock) bool {
-	return b.Comment == "rangeindex.loop" || b.Comment == "rangeiter.loop" || b.Comment == "for.loop"
+	switch b.Comment {
+	case "rangeindex.loop", "rangeiter.loop", "for.loop", "rangechan.loop", "rangeint.loop":
+		return true
+	}
+	return false
 }
 
 // inLoop: b belongs to the natural loop of header h (h dominates b and b reaches h through
@@ -895,11 +899,16 @@ func interpretLess(fn *ssa.Function, ord map[string]int, keysSeen map[string]boo
 					}
 					return -1, "comparison of values that are not keys of the two elements: " + x.String()
 				}
-				if kx.key != ky.key || kx.elem == ky.elem {
-					return -1, "comparison mixes different keys or the same element: " + x.String()
+				if kx.key != ky.key {
+					return -1, "comparison mixes different keys: " + x.String()
 				}
 				name := kx.key
 				o, known := ord[name]
+				if kx.elem == ky.elem {
+					// a key compared with itself (index slip): always equal
+					keysSeen[name+" of the same element on both sides"] = true
+					o, known = 0, true
+				}
 				if !known {
 					keysSeen[name] = true
 					o = 0 // unknown key: treated as equal, reported through keysSeen
